@@ -116,6 +116,41 @@ theorem Wf_shift_closed (hinv : ∀ a c, op a (op a c) = c) {a b r c : Nat} (hr 
   rw [hinv]
   group
 
+theorem ix_add (a b n s : Nat) : ix a b (n + s) = ix (ix a b n) (ix b a n) s := by
+  unfold ix
+  rcases Nat.mod_two_eq_zero_or_one n with h | h <;> rcases Nat.mod_two_eq_zero_or_one s with h' | h'
+  · have : (n + s) % 2 = 0 := by omega
+    simp [h, h', this]
+  · have : (n + s) % 2 = 1 := by omega
+    simp [h, h', this]
+  · have : (n + s) % 2 = 1 := by omega
+    simp [h, h', this]
+  · have : (n + s) % 2 = 0 := by omega
+    simp [h, h', this]
+
+theorem wk_add : ∀ (n a b s c : Nat),
+    wk op a b (n + s) c = wk op (ix a b n) (ix b a n) s (wk op a b n c)
+  | 0, a, b, s, c => by simp [wk, ix]
+  | n + 1, a, b, s, c => by
+    have : n + 1 + s = (n + s) + 1 := by omega
+    rw [this]
+    show wk op b a (n + s) (op a c) = wk op (ix a b (n + 1)) (ix b a (n + 1)) s (wk op b a n (op a c))
+    rw [wk_add n b a s (op a c), ix_succ, ix_succ]
+
+/-- a walk with an odd number of crossings that returns to its start is a palindrome -/
+theorem wk_palindrome (hinv : ∀ a c, op a (op a c) = c) {a b N c : Nat} (hodd : N % 2 = 1)
+    (hret : wk op a b N c = c) : ∀ t, t ≤ N → wk op a b (N - t) c = wk op a b t c
+  | 0, _ => hret
+  | t + 1, ht => by
+    have ih := wk_palindrome hinv hodd hret t (by omega)
+    have h1 : N - t = (N - (t + 1)) + 1 := by omega
+    rw [h1, wk_succ_last] at ih
+    have hix : ix a b (N - (t + 1)) = ix a b t := by
+      unfold ix
+      have : (N - (t + 1)) % 2 = t % 2 := by omega
+      rw [this]
+    rw [wk_succ_last, ← ih, ← hix, hinv]
+
 theorem map_Wf {H : Type} [Group H] (μ : G →* H) : ∀ (n a b c : Nat),
     μ (Wf op val a b n c) = Wf op (fun c a => μ (val c a)) a b n c
   | 0, _, _, _ => by simp [Wf]
